@@ -141,7 +141,7 @@ func (e *emitter) op(name string, args ...string) string {
 }
 
 // soak: results handed out early in the run must survive MANY later calls (a ring of a few thousand slots, a pool that grows
-// and recycles). The sampled ops are executed again and again without output — for at most 3 s, 60 rounds or 30 000 calls — and
+// and recycles). The sampled ops are executed again and again without output — for at most 4 s, 200 rounds or 60 000 calls — and
 // then the results kept for the long term (keptLong, one in five of all retained results, at most 2048) are read again,
 // by putting them under the watch of one last repeated op: a change is reported on that line as ALIASED:<op that handed it out>.
 func (e *emitter) soak() {
@@ -151,15 +151,32 @@ func (e *emitter) soak() {
 	e.soaking = true
 	t0 := time.Now()
 	calls := 0
-	for round := 0; round < 60 && time.Since(t0) < 3*time.Second && calls < 30000; round++ {
-		for _, sm := range e.sample {
-			f := ops[sm.name]
+	// ops that returned the first time are called directly (no watchdog goroutine); the long ones are left out
+	var quickOps []sampled
+	for _, sm := range e.sample {
+		n := 0
+		for _, a := range sm.args {
+			n += len(a)
+		}
+		if n <= 2048 && sm.res != "hang" {
+			quickOps = append(quickOps, sm)
+		}
+	}
+	call := func(sm sampled) {
+		defer func() { recover() }()
+		ops[sm.name](sm.args)
+	}
+	for round := 0; round < 200 && time.Since(t0) < 4*time.Second && calls < 60000; round++ {
+		for _, sm := range quickOps {
 			curOpName = sm.name
 			keptCur, constArgs = nil, nil
-			guardT(opLimit(sm.name), func() string { return f(sm.args) })
+			call(sm)
 			inputBufs = nil
 			calls++
 		}
+	}
+	if os.Getenv("VERIF_SOAK_DEBUG") != "" {
+		os.WriteFile("/tmp/lead/soak.dbg", []byte(fmt.Sprintf("soak: sample=%d keptLong=%d calls=%d wall=%v\n", len(e.sample), len(keptLong), calls, time.Since(t0))), 0o644)
 	}
 	keptCur = nil
 	keptPrev = append(keptLong, keptPrev...)
